@@ -33,6 +33,21 @@ def cases(draw, maxdim=64):
     return dict(kind=kind, ns=ns, nf=nf, seed=seed, poison=poison, threads=sorted(threads))
 
 
+@st.composite
+def widecases(draw):
+    """few rows, one or two thousand columns (or the transpose): detector-sized rows at small cost"""
+    c = draw(cases(16))
+    c["kind"] = draw(st.sampled_from(["perm", "perm", "gauss", "ramp"]))
+    long = draw(st.sampled_from([511, 512, 513, 700, 1022, 1023, 1300, 2048, 2049]))
+    if draw(st.booleans()):
+        c["nf"] = long
+    else:
+        c["ns"] = long
+        c["nf"] = max(c["nf"], 3)
+    c["threads"] = sorted(draw(st.lists(st.sampled_from([1, 2, 4, 16]), min_size=1, max_size=2, unique=True)))
+    return c
+
+
 def make_image(case):
     rng = np.random.RandomState(case["seed"] % (2 ** 32))
     ns, nf = case["ns"], case["nf"]
@@ -284,8 +299,18 @@ def check_sparse(case, rec=None):
         cmp("sparseframe.sparse_localmax(data_name='signal', %s)" % alt.dtype, n, fr2.pixels["lm2"])
     else:
         fails.append(exc_failure("sparse_localmax(data_name=...)", n))
+    lm2_before = np.array(fr2.pixels["lm2"], copy=True) if "lm2" in fr2.pixels else None
     fr = sparseframe.sparse_frame(i, j, (ns, nf), pixels={"intensity": v})
     ok, n = guard(sparseframe.sparse_localmax, fr)
+    if ok and lm2_before is not None:
+        # a whole scan is labelled frame by frame before anything reads the labels: labelling this frame (and a
+        # smaller, different one) must leave the labels of the frame done before as they were
+        sub = slice(0, max(1, nnz // 2))
+        fr3 = sparseframe.sparse_frame(i[sub], j[sub], (ns, nf), pixels={"intensity": np.ascontiguousarray(v[sub][::-1])})
+        guard(sparseframe.sparse_localmax, fr3)
+        if not np.array_equal(fr2.pixels["lm2"], lm2_before):
+            fails.append(fail("history", "the labels sparse_localmax stored in one frame changed when other frames were "
+                              "labelled afterwards", fn="sparse_localmax"))
     if ok:
         cmp("sparseframe.sparse_localmax", n, fr.pixels["localmax"])
         if fr.meta["localmax"].get("nlabel") != n:
@@ -375,6 +400,7 @@ def run_shard(rec):
     hyp_run(rec, "dense", cases(64), lambda c: check(c, rec), max_examples=150 if quick else 1500, shrink=False)
     hyp_run(rec, "dense_large", cases(512 if not quick else 200), lambda c: check(c, rec),
             max_examples=4 if quick else 40, shrink=False)
+    hyp_run(rec, "dense_wide", widecases(), lambda c: check(c, rec), max_examples=6 if quick else 60, shrink=False)
     hyp_run(rec, "sparse", spcases(), lambda c: check_sparse(c, rec), max_examples=150 if quick else 1500)
 
 
